@@ -17,6 +17,7 @@ mod lex;
 mod limits;
 mod mem;
 mod parse;
+mod pipe;
 mod pipeline;
 mod plan;
 mod pool;
@@ -46,6 +47,7 @@ fn main() {
         Some("cli") => cli::main(rest),
         Some("lex") => lex::main(rest),
         Some("parse") => parse::main(rest),
+        Some("pipe") => pipe::main(rest),
         Some("resolve") => resolve::main(rest),
         Some("run") => run::main(rest),
         Some("plan") => plan::main(rest),
